@@ -662,7 +662,7 @@ theorem C13_intersection_score_after_moves (hA : Lawful A VA WA) (g : σ → Nat
 end combinators
 
 /-- **The score clause composes over every nesting.** `ScoredNode`: the scorer types assembled at any
-depth from the sorted-vector leaf with SUM unions, minimum-should-match disjunctions, intersections,
+depth from the sorted-vector and bitset leaves with SUM unions, minimum-should-match disjunctions, intersections,
 exclusions and required/optional nodes. Every one of them is `Scored`: it refines the sorted-list
 cursor through every legal call program (`Scored.lawful`), and on every valid state sitting on a
 document `score()` equals the node's score function at that document (`Scored.hg`) — a function
